@@ -97,6 +97,8 @@ where
     fn run_to_fixpoint(&mut self, n: &mut Node) {
         debug_assert!(!self.changed, "Pass has already been run");
         loop {
+            #[cfg(feature = "verif")]
+            crate::verif::tick(crate::verif::Site::OptimizerPass);
             self.changed = false;
             self.run_postorder(n);
             if !self.changed {
